@@ -287,6 +287,8 @@ class SynA(Driver):
 
 
 class SynB(SynA):
+    # overrides the group it inherits under the same attribute: the nearest definition wins for SynB and below
+    ga = properties.Group("GA", vectors=dict(v=properties.TextVector("VA2", elements=dict(a=properties.Text("A")))))
     gb = properties.Group("GB", vectors=dict(v=properties.TextVector("VB", elements=dict(a=properties.Text("A")))))
 
 
@@ -310,7 +312,7 @@ def rule_mro(ctx):
     f = drv.find_method("message_from_client")
     init = drv.methods["__init__"]
     gp = p.cls("indi.message.get_properties.GetProperties")
-    expected = {"SynA": ["VA"], "SynB": ["VA", "VB"], "SynC": ["VA", "VB", "VC"], "SynD": ["VA", "VB", "VC"]}
+    expected = {"SynA": ["VA"], "SynB": ["VA2", "VB"], "SynC": ["VA2", "VB", "VC"], "SynD": ["VA2", "VB", "VC"]}
     bad = False
     collected = {}
     for depth, cname in enumerate(expected, 1):
@@ -337,7 +339,7 @@ def rule_mro(ctx):
         collected[cname] = sorted(got)
         if sorted(got) != expected[cname]:
             missing = sorted(set(expected[cname]) - set(got))
-            ctx.violated("C01.MRO", init.short, f"a driver class {cname} (depth {depth}) announces properties {sorted(got)}, expected {expected[cname]}: the groups of ancestors beyond the direct parent ({missing}) are lost, so their properties are never defined to any client", fi=init, text=f"mro:{cname}", witness="class SynA(Driver): ga=...; class SynB(SynA): gb=...; class SynC(SynB): gc=...; class SynD(SynC): pass")
+            ctx.violated("C01.MRO", init.short, f"a driver class {cname} (depth {depth}) announces properties {sorted(got)}, expected {expected[cname]} (SynB overrides the group 'ga' of SynA: the nearest definition wins): the groups of some ancestor ({missing}) are lost or shadowed by a farther ancestor's, so their properties are never defined to any client", fi=init, text=f"mro:{cname}", witness="class SynA(Driver): ga=...; class SynB(SynA): ga=... (override), gb=...; class SynC(SynB): gc=...; class SynD(SynC): pass")
             bad = True
     if not bad:
         ctx.holds("C01.MRO", init.short, "properties of all ancestors announced on a 4-level synthetic hierarchy (metaclass, collector and constructors interpreted)", fi=init)
